@@ -1040,3 +1040,374 @@ Proof.
   specialize (HI E3 E4 Hdx Hdy).
   rewrite <- Hroi in HI. cbn [fst snd] in HI. tauto.
 Qed.
+
+(** ** the paste path: what _can_paste guarantees about the snapped transform *)
+Lemma maybe_int_near x tol z0 :
+  Qabs (x - inject_Z z0) < tol ->
+  exists z, maybe_int x tol = inject_Z z /\ Qabs (x - inject_Z z) < tol /\ Qabs (x - inject_Z z) <= half.
+Proof.
+  intros H. unfold maybe_int. destruct (maybe_int_opt x tol) as [z|] eqn:E.
+  - exists z. split; [reflexivity|]. apply maybe_int_opt_some. exact E.
+  - exfalso. pose proof (maybe_int_opt_none x tol E z0). lra.
+Qed.
+
+Definition unit_q (flip : bool) : Q := if flip then inject_Z (-1) else inject_Z 1.
+
+Lemma snap_affine_unit B ttol stol tol :
+  Qabs (ab B) <= tol -> Qabs (ad B) <= tol -> 0 < stol -> stol <= half ->
+  Qabs (Qabs (aa B) - 1) < stol -> Qabs (Qabs (ae B) - 1) < stol ->
+  (exists z, Qabs (ac B - inject_Z z) < ttol) -> (exists z, Qabs (af B - inject_Z z) < ttol) ->
+  exists tx ty,
+    snap_affine B ttol stol tol =
+      mkAff (unit_q (Qltb (aa B) 0)) 0 (inject_Z tx) 0 (unit_q (Qltb (ae B) 0)) (inject_Z ty) /\
+    Qabs (ac B - inject_Z tx) < ttol /\ Qabs (ac B - inject_Z tx) <= half /\
+    Qabs (af B - inject_Z ty) < ttol /\ Qabs (af B - inject_Z ty) <= half.
+Proof.
+  intros Hb Hd S0 S1 Ha He [zx Hx] [zy Hy]. unfold snap_affine.
+  assert (E1 : Qltb tol (Qabs (ab B)) = false) by (apply Qltb_false; exact Hb).
+  assert (E2 : Qltb tol (Qabs (ad B)) = false) by (apply Qltb_false; exact Hd).
+  rewrite E1, E2. cbn [orb].
+  destruct (maybe_int_near _ _ _ Hx) as (tx & Mx & Mx1 & Mx2).
+  destruct (maybe_int_near _ _ _ Hy) as (ty & My & My1 & My2).
+  exists tx, ty. rewrite Mx, My.
+  rewrite (snap_scale_unit _ _ S0 S1 Ha), (snap_scale_unit _ _ S0 S1 He).
+  split; [|tauto]. unfold unit_q. destruct (Qltb (aa B) 0); destruct (Qltb (ae B) 0); reflexivity.
+Qed.
+
+Lemma can_paste_code_ok c A stol ttol :
+  can_paste_code c A stol ttol = Ok 0%Z ->
+  exists sx sy k,
+    scale2 A = Ok (sx, sy) /\ is_affine_st A (c_st c) = true /\
+    is_almost_int (Qminq sx sy) stol = true /\
+    pick_read_scale (Qminq sx sy) (c_rs c) = Ok k /\
+    let A_ := aff_scale_left (1 / inject_Z k) A in
+    Qabs (Qabs (aa A_) - 1) < stol /\ Qabs (Qabs (ae A_) - 1) < stol /\
+    is_almost_int (ac A_) ttol = true /\ is_almost_int (af A_) ttol = true.
+Proof.
+  unfold can_paste_code. intros H.
+  destruct (is_affine_st A (c_st c)) eqn:Est; [|discriminate]. cbn [negb] in H.
+  destruct (scale2 A) as [[sx sy]|e] eqn:Es; [|discriminate]. cbn [bind] in H.
+  destruct (is_almost_int (Qminq sx sy) stol) eqn:Ei; [|discriminate]. cbn [negb] in H.
+  destruct (pick_read_scale (Qminq sx sy) (c_rs c)) as [k|e] eqn:Ek; [|discriminate]. cbn [bind] in H.
+  destruct (Qle_bool stol _ || Qle_bool stol _) eqn:E3 in H; [discriminate|].
+  apply orb_false_iff in E3. destruct E3 as [E3a E3b].
+  apply Qle_bool_false in E3a. apply Qle_bool_false in E3b.
+  destruct (is_almost_int _ ttol && is_almost_int _ ttol) eqn:E4 in H; [|discriminate].
+  apply andb_true_iff in E4. destruct E4 as [E4a E4b].
+  exists sx, sy, k. cbv zeta. repeat split; try reflexivity; assumption.
+Qed.
+
+Lemma is_affine_st_spec A tol : is_affine_st A tol = true -> Qabs (ab A) < tol /\ Qabs (ad A) < tol.
+Proof.
+  unfold is_affine_st. intros H. apply andb_true_iff in H. destruct H as [H1 H2].
+  apply Qltb_true in H1. apply Qltb_true in H2. split; assumption.
+Qed.
+
+Lemma inv_pos (k : Z) : (1 <= k)%Z -> 0 < 1 / inject_Z k /\ 1 / inject_Z k <= 1.
+Proof.
+  intros H. assert (1 <= inject_Z k) by (change 1 with (inject_Z 1); rewrite <- Zle_Qle; exact H).
+  split.
+  - apply Qlt_shift_div_l; lra.
+  - apply Qle_shift_div_r; lra.
+Qed.
+
+Lemma Qabs_scale_le u x : 0 < u -> u <= 1 -> Qabs (u * x) <= Qabs x.
+Proof.
+  intros H0 H1. rewrite Qabs_Qmult. rewrite (Qabs_pos u) by lra.
+  pose proof (Qabs_nonneg x). timeout 20 nra.
+Qed.
+
+(** the affine handed to box_overlap on the paste path is a unit scale + whole pixel shift *)
+Lemma paste_affine_unit c A stol ttol sx sy k :
+  can_paste_code c A stol ttol = Ok 0%Z ->
+  scale2 A = Ok (sx, sy) -> pick_read_scale (Qminq sx sy) (c_rs c) = Ok k ->
+  0 < stol -> stol <= half -> 0 < c_rs c -> c_st c <= c_snap c ->
+  (1 <= k)%Z /\
+  exists tx ty,
+    paste_affine c A ttol stol k =
+      mkAff (unit_q (Qltb (aa A) 0)) 0 (inject_Z tx) 0 (unit_q (Qltb (ae A) 0)) (inject_Z ty) /\
+    Qabs (Qabs (aa A) / inject_Z k - 1) < stol /\ Qabs (Qabs (ae A) / inject_Z k - 1) < stol /\
+    Qabs (ac A / inject_Z k - inject_Z tx) < ttol /\ Qabs (ac A / inject_Z k - inject_Z tx) <= half /\
+    Qabs (af A / inject_Z k - inject_Z ty) < ttol /\ Qabs (af A / inject_Z k - inject_Z ty) <= half.
+Proof.
+  intros Hc Hs Hk S0 S1 R0 Cs.
+  destruct (can_paste_code_ok _ _ _ _ Hc) as (sx' & sy' & k' & Hs' & Hst & Hai & Hk' & H).
+  rewrite Hs in Hs'. injection Hs' as <- <-. rewrite Hk in Hk'. injection Hk' as <-.
+  cbv zeta in H. destruct H as (Ha & He & Hx & Hy).
+  destruct (pick_read_scale_spec _ _ _ R0 Hk) as (_ & K1 & _).
+  split; [exact K1|].
+  destruct (inv_pos k K1) as [U0 U1]. set (u := 1 / inject_Z k) in *.
+  assert (Hkq : 0 < inject_Z k) by (change 0 with (inject_Z 0); rewrite <- Zlt_Qlt; lia).
+  assert (Eu : forall x, u * x == x / inject_Z k) by (intros x; unfold u; field; lra).
+  destruct (is_affine_st_spec _ _ Hst) as [Hb Hd].
+  destruct (maybe_int_almost _ _ Hx) as (zx & _ & Zx & _).
+  destruct (maybe_int_almost _ _ Hy) as (zy & _ & Zy & _).
+  unfold aff_scale_left in *. cbn [aa ab ac ad ae af] in *.
+  assert (Sa : Qltb (u * aa A) 0 = Qltb (aa A) 0).
+  { destruct (Qltb (aa A) 0) eqn:E; [apply Qltb_true in E; apply Qltb_true | apply Qltb_false in E; apply Qltb_false]; timeout 20 nra. }
+  assert (Se : Qltb (u * ae A) 0 = Qltb (ae A) 0).
+  { destruct (Qltb (ae A) 0) eqn:E; [apply Qltb_true in E; apply Qltb_true | apply Qltb_false in E; apply Qltb_false]; timeout 20 nra. }
+  assert (Aa : Qabs (u * aa A) == Qabs (aa A) / inject_Z k).
+  { rewrite Qabs_Qmult, (Qabs_pos u) by lra. apply Eu. }
+  assert (Ae : Qabs (u * ae A) == Qabs (ae A) / inject_Z k).
+  { rewrite Qabs_Qmult, (Qabs_pos u) by lra. apply Eu. }
+  unfold paste_affine. destruct (k =? 1)%Z eqn:K.
+  - apply Z.eqb_eq in K. subst k.
+    assert (E1 : forall x, u * x == x) by (intros x; unfold u; change (inject_Z 1) with 1; field).
+    rewrite !E1 in Ha, He, Zx, Zy.
+    destruct (snap_affine_unit A ttol stol (c_snap c)) as (tx & ty & P & Q1 & Q2 & Q3 & Q4);
+      try assumption; try lra; try (eexists; eassumption).
+    exists tx, ty. split; [exact P|].
+    assert (E2 : forall x, x / inject_Z 1 == x) by (intros x; change (inject_Z 1) with 1; field).
+    rewrite !E2. tauto.
+  - destruct (snap_affine_unit (mkAff (u * aa A) (u * ab A) (u * ac A) (u * ad A) (u * ae A) (u * af A))
+                               ttol stol (c_snap c)) as (tx & ty & P & Q1 & Q2 & Q3 & Q4);
+      cbn [aa ab ac ad ae af]; try assumption; try (eexists; eassumption).
+    + pose proof (Qabs_scale_le u (ab A) U0 U1). lra.
+    + pose proof (Qabs_scale_le u (ad A) U0 U1). lra.
+    + exists tx, ty. cbn [aa ab ac ad ae af] in *. unfold aff_scale_left. fold u.
+      rewrite Sa, Se in P. split; [exact P|].
+      rewrite <- Aa, <- Ae, <- !Eu. tauto.
+Qed.
+
+(** ** the paste path: regions from the unit transform *)
+Definition nn_unit (T : Z) (flip : bool) (d : Z) : Z := if flip then (T - 1 - d)%Z else (d + T)%Z.
+
+Definition axis_unit_facts (Ns Nd T : Z) (flip : bool) (src dst : Z * Z) : Prop :=
+  sl_within src Ns /\ sl_within dst Nd /\
+  (snd src - fst src = snd dst - fst dst)%Z /\
+  (forall d, (0 <= d < Nd)%Z -> (in_sl dst d <-> (0 <= nn_unit T flip d < Ns)%Z)) /\
+  (forall d, in_sl dst d -> paste_index src dst flip d = nn_unit T flip d /\ in_sl src (nn_unit T flip d)).
+
+Lemma axis_unit Ns Nd T flip :
+  (0 <= Ns)%Z -> (0 <= Nd)%Z ->
+  exists src dst, axis_overlap Ns Nd (unit_q flip) (inject_Z T) = Ok (src, dst) /\
+                  axis_unit_facts Ns Nd T flip src dst.
+Proof.
+  intros HNs HNd.
+  destruct (axis_overlap_unit Ns Nd T flip HNs HNd) as (src & dst & E & U1 & U2 & U3).
+  assert (Hs : ~ unit_q flip == 0) by (destruct flip; unfold unit_q; intros C; discriminate C).
+  destruct (axis_overlap_spec Ns Nd (unit_q flip) (inject_Z T) HNs HNd Hs) as (src' & dst' & E' & W1 & W2 & _).
+  unfold unit_q in *. rewrite E in E'. injection E' as <- <-.
+  exists src, dst. split; [exact E|]. unfold axis_unit_facts, nn_unit.
+  split; [exact W1|]. split; [exact W2|]. split; [exact U1|]. split; [exact U2|].
+  intros d H. split; [apply U3; exact H|].
+  specialize (U3 d H). unfold paste_index, in_sl, sl_within in *. destruct flip; lia.
+Qed.
+
+Lemma box_overlap_unit ss ds fx fy tx ty :
+  (0 <= fst ss)%Z -> (0 <= snd ss)%Z -> (0 <= fst ds)%Z -> (0 <= snd ds)%Z ->
+  exists rs rd,
+    box_overlap ss ds (mkAff (unit_q fx) 0 (inject_Z tx) 0 (unit_q fy) (inject_Z ty)) = Ok (rs, rd) /\
+    axis_unit_facts (fst ss) (fst ds) ty fy (fst rs) (fst rd) /\
+    axis_unit_facts (snd ss) (snd ds) tx fx (snd rs) (snd rd).
+Proof.
+  intros S1 S2 D1 D2. unfold box_overlap. cbn [aa ab ac ad ae af].
+  destruct (axis_unit (fst ss) (fst ds) ty fy S1 D1) as (s0 & d0 & E0 & F0).
+  destruct (axis_unit (snd ss) (snd ds) tx fx S2 D2) as (s1 & d1 & E1 & F1).
+  rewrite E0. cbn [bind]. rewrite E1. cbn [bind].
+  exists (s0, s1), (d0, d1). split; [reflexivity|]. cbn [fst snd]. split; assumption.
+Qed.
+
+Lemma zoom_out_dim_spec n k : (0 <= n)%Z -> (1 <= k)%Z ->
+  (1 <= zoom_out_dim n k)%Z /\ (n <= k * zoom_out_dim n k)%Z /\ (k * zoom_out_dim n k < n + k \/ n = 0%Z)%Z.
+Proof.
+  intros Hn Hk. unfold zoom_out_dim.
+  assert (Hkq : 0 < inject_Z k) by (change 0 with (inject_Z 0); rewrite <- Zlt_Qlt; lia).
+  assert (Hq : (inject_Z n / inject_Z k) * inject_Z k == inject_Z n) by (field; lra).
+  set (q := inject_Z n / inject_Z k) in *.
+  destruct (Qceiling_spec q) as (cq & Ec & C1 & C2).
+  set (cz := Qceiling q) in *. clearbody q.
+  assert (G1 : (n <= k * cz)%Z).
+  { rewrite Zle_Qle, inject_Z_mult, <- Ec, <- Hq. timeout 20 nra. }
+  assert (G2 : (k * cz < n + k)%Z).
+  { rewrite Zlt_Qlt, inject_Z_mult, inject_Z_plus, <- Ec, <- Hq. timeout 20 nra. }
+  split; [lia|].
+  destruct (Z.eq_dec n 0) as [N0 | N0].
+  - split; [|right; assumption]. subst n. lia.
+  - assert (1 <= cz)%Z by nia. rewrite Z.max_r by lia. split; [lia | left; lia].
+Qed.
+
+(** floor of the native location from the floor of the overview location *)
+Lemma floor_scaled (px : Q) (k h : Z) :
+  (1 <= k)%Z -> Qfloor (px / inject_Z k) = h -> (k * h <= Qfloor px < k * h + k)%Z.
+Proof.
+  intros Hk <-.
+  assert (Hkq : 0 < inject_Z k) by (change 0 with (inject_Z 0); rewrite <- Zlt_Qlt; lia).
+  assert (Hq : (px / inject_Z k) * inject_Z k == px) by (field; lra).
+  set (q := px / inject_Z k) in *.
+  destruct (Qfloor_spec q) as (f & Ef & F1 & F2). clearbody q.
+  split.
+  - apply Qfloor_ge_iff. rewrite inject_Z_mult, <- Ef, <- Hq. timeout 20 nra.
+  - apply Qfloor_lt_iff. rewrite inject_Z_plus, inject_Z_mult, <- Ef, <- Hq. timeout 20 nra.
+Qed.
+
+Definition tol_ok (c : consts) (stol : Q) : Prop :=
+  0 < stol /\ stol <= half /\ 0 < c_rs c /\ c_st c <= c_snap c.
+
+Lemma src_dims_nonneg ss k : (0 <= fst ss)%Z -> (0 <= snd ss)%Z -> (1 <= k)%Z ->
+  (0 <= fst (src_dims ss k))%Z /\ (0 <= snd (src_dims ss k))%Z.
+Proof.
+  intros H1 H2 Hk. unfold src_dims. destruct (k =? 1)%Z; cbn [fst snd]; [lia|].
+  destruct (zoom_out_dim_spec (fst ss) k H1 Hk) as (A1 & _). destruct (zoom_out_dim_spec (snd ss) k H2 Hk) as (B1 & _). lia.
+Qed.
+
+Lemma paste_structure c ss ds A F ttol stol padding align r :
+  reproject_linear c ss ds A F ttol stol padding align = Ok r -> paste_ok r = true ->
+  (0 <= fst ss)%Z -> (0 <= snd ss)%Z -> (0 <= fst ds)%Z -> (0 <= snd ds)%Z -> tol_ok c stol ->
+  let k := read_shrink r in
+  (1 <= k)%Z /\
+  exists tx ty rs rd,
+    paste_affine c A ttol stol k =
+      mkAff (unit_q (Qltb (aa A) 0)) 0 (inject_Z tx) 0 (unit_q (Qltb (ae A) 0)) (inject_Z ty) /\
+    axis_unit_facts (fst (src_dims ss k)) (fst ds) ty (Qltb (ae A) 0) (fst rs) (fst rd) /\
+    axis_unit_facts (snd (src_dims ss k)) (snd ds) tx (Qltb (aa A) 0) (snd rs) (snd rd) /\
+    roi_src r = up_roi rs k /\ roi_dst r = rd /\
+    Qabs (ab A) < c_st c /\ Qabs (ad A) < c_st c /\
+    Qabs (Qabs (aa A) / inject_Z k - 1) < stol /\ Qabs (Qabs (ae A) / inject_Z k - 1) < stol /\
+    Qabs (ac A / inject_Z k - inject_Z tx) < ttol /\ Qabs (ac A / inject_Z k - inject_Z tx) <= half /\
+    Qabs (af A / inject_Z k - inject_Z ty) < ttol /\ Qabs (af A / inject_Z k - inject_Z ty) <= half.
+Proof.
+  intros Hr Hp S1 S2 D1 D2 (T0 & T1 & T2 & T3) k.
+  destruct (reproject_linear_cases _ _ _ _ _ _ _ _ _ _ Hr) as (sx & sy & Hs & Hsc & _ & Hk & [[Hp' _] | (_ & _ & _ & Hc & rs & rd & Hb & Hrs & Hrd)]);
+    [congruence|].
+  rewrite Hsc in Hk. fold k in Hk, Hb, Hrs.
+  destruct (paste_affine_unit c A stol ttol sx sy k Hc Hs Hk T0 T1 T2 T3) as (K1 & tx & ty & HP & Q).
+  split; [exact K1|].
+  destruct (src_dims_nonneg ss k S1 S2 K1) as [N1 N2].
+  destruct (box_overlap_unit (src_dims ss k) ds (Qltb (aa A) 0) (Qltb (ae A) 0) tx ty N1 N2 D1 D2)
+    as (rs' & rd' & Hb' & Fy & Fx).
+  rewrite HP in Hb. rewrite Hb in Hb'. injection Hb' as <- <-.
+  destruct (can_paste_code_ok _ _ _ _ Hc) as (_ & _ & _ & _ & Hst & _).
+  destruct (is_affine_st_spec _ _ Hst) as [Hb1 Hd1].
+  exists tx, ty, rs, rd. split; [exact HP|]. split; [exact Fy|]. split; [exact Fx|]. split; [exact Hrs|]. split; [exact Hrd|]. split; [exact Hb1|]. split; [exact Hd1|]. exact Q.
+Qed.
+
+Lemma up_roi_in rs k h ky kx hy :
+  (1 <= k)%Z -> in_sl (snd rs) h -> in_sl (fst rs) hy ->
+  (k * h <= kx < k * h + k)%Z -> (k * hy <= ky < k * hy + k)%Z ->
+  in_roi (up_roi rs k) ky kx.
+Proof.
+  intros Hk [X1 X2] [Y1 Y2] Hx Hy. unfold up_roi, in_roi, in_sl.
+  destruct (k =? 1)%Z eqn:K.
+  - apply Z.eqb_eq in K. subst k. lia.
+  - unfold scaled_up_slice. cbn [fst snd]. nia.
+Qed.
+
+Lemma axis_h_range (px : Q) (k n dim : Z) :
+  (1 <= k)%Z -> 0 <= px -> px < inject_Z n -> (n <= k * dim)%Z ->
+  (0 <= Qfloor (px / inject_Z k) < dim)%Z.
+Proof.
+  intros Hk P0 P1 Hd.
+  pose proof (floor_scaled px k _ Hk eq_refl) as Hf.
+  assert (0 <= Qfloor px)%Z by (apply Qfloor_ge_iff; exact P0).
+  assert (Qfloor px < n)%Z by (apply Qfloor_lt_iff; exact P1).
+  nia.
+Qed.
+
+Lemma src_dims_cover ss k : (0 <= fst ss)%Z -> (0 <= snd ss)%Z -> (1 <= k)%Z ->
+  (fst ss <= k * fst (src_dims ss k))%Z /\ (snd ss <= k * snd (src_dims ss k))%Z.
+Proof.
+  intros H1 H2 Hk. unfold src_dims. destruct (k =? 1)%Z eqn:K; cbn [fst snd].
+  - apply Z.eqb_eq in K. lia.
+  - destruct (zoom_out_dim_spec (fst ss) k H1 Hk) as (_ & A & _).
+    destruct (zoom_out_dim_spec (snd ss) k H2 Hk) as (_ & B & _). lia.
+Qed.
+
+(** C03, paste path: inclusion for any true source location within half an (overview) pixel of the
+    snapped transform *)
+Lemma paste_inclusion c ss ds A F ttol stol padding align r :
+  reproject_linear c ss ds A F ttol stol padding align = Ok r -> paste_ok r = true ->
+  (0 <= fst ss)%Z -> (0 <= snd ss)%Z -> (0 <= fst ds)%Z -> (0 <= snd ds)%Z -> tol_ok c stol ->
+  let k := read_shrink r in
+  let P := paste_affine c A ttol stol k in
+  forall dy dx, (0 <= dy < fst ds)%Z -> (0 <= dx < snd ds)%Z ->
+  forall px py : Q,
+    Qabs (px / inject_Z k - fst (aff_apply P (pix_center dy dx))) < 1#2 ->
+    Qabs (py / inject_Z k - snd (aff_apply P (pix_center dy dx))) < 1#2 ->
+    0 <= px -> px < inject_Z (snd ss) -> 0 <= py -> py < inject_Z (fst ss) ->
+    in_roi (roi_dst r) dy dx /\ in_roi (roi_src r) (Qfloor py) (Qfloor px).
+Proof.
+  intros Hr Hp S1 S2 D1 D2 Htol k P dy dx Hdy Hdx px py Dx Dy X0 X1 Y0 Y1.
+  destruct (paste_structure _ _ _ _ _ _ _ _ _ _ Hr Hp S1 S2 D1 D2 Htol) as (K1 & tx & ty & rs & rd & HP & Fy & Fx & Hrs & Hrd & _).
+  fold k in K1, HP, Fy, Fx, Hrs. fold P in HP.
+  destruct (src_dims_cover ss k S1 S2 K1) as [Cy Cx].
+  assert (Ex : fst (aff_apply P (pix_center dy dx)) == unit_q (Qltb (aa A) 0) * (inject_Z dx + (1#2)) + inject_Z tx).
+  { rewrite HP. unfold aff_apply, pix_center. cbn [fst snd aa ab ac ad ae af]. ring. }
+  assert (Ey : snd (aff_apply P (pix_center dy dx)) == unit_q (Qltb (ae A) 0) * (inject_Z dy + (1#2)) + inject_Z ty).
+  { rewrite HP. unfold aff_apply, pix_center. cbn [fst snd aa ab ac ad ae af]. ring. }
+  rewrite Ex in Dx. rewrite Ey in Dy.
+  pose proof (nn_floor_unit tx dx (Qltb (aa A) 0) (px / inject_Z k) Dx) as Nx.
+  pose proof (nn_floor_unit ty dy (Qltb (ae A) 0) (py / inject_Z k) Dy) as Ny.
+  fold (nn_unit tx (Qltb (aa A) 0) dx) in Nx. fold (nn_unit ty (Qltb (ae A) 0) dy) in Ny.
+  pose proof (axis_h_range px k (snd ss) _ K1 X0 X1 Cx) as Rx.
+  pose proof (axis_h_range py k (fst ss) _ K1 Y0 Y1 Cy) as Ry.
+  rewrite Nx in Rx. rewrite Ny in Ry.
+  destruct Fx as (_ & _ & _ & Fx2 & Fx3). destruct Fy as (_ & _ & _ & Fy2 & Fy3).
+  assert (Ix : in_sl (snd rd) dx) by (apply Fx2; assumption).
+  assert (Iy : in_sl (fst rd) dy) by (apply Fy2; assumption).
+  destruct (Fx3 dx Ix) as [_ Sx]. destruct (Fy3 dy Iy) as [_ Sy].
+  rewrite Hrd, Hrs. split; [split; assumption|].
+  apply (up_roi_in rs k _ _ _ _ K1 Sx Sy).
+  - apply floor_scaled; assumption.
+  - apply floor_scaled; assumption.
+Qed.
+
+(** ... in particular for the true transform itself when the scale is exactly +-k *)
+Lemma paste_drift_exact ttol (k tx : Z) (a t : Q) (flip : bool) (d : Z) :
+  (1 <= k)%Z -> a == unit_q flip * inject_Z k ->
+  Qabs (t / inject_Z k - inject_Z tx) < ttol -> ttol <= 1#2 ->
+  Qabs ((a * (inject_Z d + (1#2)) + t) / inject_Z k - (unit_q flip * (inject_Z d + (1#2)) + inject_Z tx)) < 1#2.
+Proof.
+  intros Hk Ea Ht Htt.
+  assert (Hkq : 0 < inject_Z k) by (change 0 with (inject_Z 0); rewrite <- Zlt_Qlt; lia).
+  assert (E : (a * (inject_Z d + (1#2)) + t) / inject_Z k - (unit_q flip * (inject_Z d + (1#2)) + inject_Z tx)
+              == t / inject_Z k - inject_Z tx).
+  { rewrite Ea. field. lra. }
+  rewrite E. lra.
+Qed.
+
+(** C03, paste path: regions inside the images (source: up to the next multiple of k) *)
+Lemma paste_within c ss ds A F ttol stol padding align r :
+  reproject_linear c ss ds A F ttol stol padding align = Ok r -> paste_ok r = true ->
+  (0 <= fst ss)%Z -> (0 <= snd ss)%Z -> (0 <= fst ds)%Z -> (0 <= snd ds)%Z -> tol_ok c stol ->
+  let k := read_shrink r in
+  roi_within (roi_dst r) ds /\
+  roi_within (roi_src r) (k * fst (src_dims ss k), k * snd (src_dims ss k))%Z /\
+  (fst (fst (roi_src r)) mod k = 0 /\ snd (fst (roi_src r)) mod k = 0 /\
+   fst (snd (roi_src r)) mod k = 0 /\ snd (snd (roi_src r)) mod k = 0)%Z /\
+  (k = 1%Z -> roi_within (roi_src r) ss) /\
+  (k * fst (src_dims ss k) < fst ss + k \/ fst ss = 0)%Z /\ (k * snd (src_dims ss k) < snd ss + k \/ snd ss = 0)%Z.
+Proof.
+  intros Hr Hp S1 S2 D1 D2 Htol k.
+  destruct (paste_structure _ _ _ _ _ _ _ _ _ _ Hr Hp S1 S2 D1 D2 Htol) as (K1 & tx & ty & rs & rd & HP & Fy & Fx & Hrs & Hrd & _).
+  fold k in K1, HP, Fy, Fx, Hrs.
+  destruct Fx as (Wsx & Wdx & _). destruct Fy as (Wsy & Wdy & _).
+  rewrite Hrd, Hrs. unfold roi_within, sl_within, up_roi, src_dims in *.
+  destruct (k =? 1)%Z eqn:K.
+  - apply Z.eqb_eq in K. cbn [fst snd] in *. rewrite K in *. rewrite !Z.mod_1_r.
+    repeat split; try lia.
+  - apply Z.eqb_neq in K. cbn [fst snd] in *. unfold scaled_up_slice. cbn [fst snd].
+    destruct (zoom_out_dim_spec (fst ss) k S1 K1) as (_ & _ & A3).
+    destruct (zoom_out_dim_spec (snd ss) k S2 K1) as (_ & _ & B3).
+    rewrite !Z.mod_mul by lia.
+    repeat split; try nia; try lia.
+Qed.
+
+(** C10: for read_shrink = k the source region is exactly k times the overview region, whose
+    shape equals the destination region's *)
+Lemma paste_shrink_scaled c ss ds A F ttol stol padding align r :
+  reproject_linear c ss ds A F ttol stol padding align = Ok r -> paste_ok r = true ->
+  (0 <= fst ss)%Z -> (0 <= snd ss)%Z -> (0 <= fst ds)%Z -> (0 <= snd ds)%Z -> tol_ok c stol ->
+  let k := read_shrink r in
+  (snd (fst (roi_src r)) - fst (fst (roi_src r)) = k * (snd (fst (roi_dst r)) - fst (fst (roi_dst r))))%Z /\
+  (snd (snd (roi_src r)) - fst (snd (roi_src r)) = k * (snd (snd (roi_dst r)) - fst (snd (roi_dst r))))%Z.
+Proof.
+  intros Hr Hp S1 S2 D1 D2 Htol k.
+  destruct (paste_structure _ _ _ _ _ _ _ _ _ _ Hr Hp S1 S2 D1 D2 Htol) as (K1 & tx & ty & rs & rd & HP & Fy & Fx & Hrs & Hrd & _).
+  fold k in K1, HP, Fy, Fx, Hrs.
+  destruct Fx as (_ & _ & Ex & _). destruct Fy as (_ & _ & Ey & _).
+  rewrite Hrd, Hrs. unfold up_roi. destruct (k =? 1)%Z eqn:K.
+  - apply Z.eqb_eq in K. rewrite K. lia.
+  - unfold scaled_up_slice. cbn [fst snd]. nia.
+Qed.
